@@ -58,6 +58,9 @@ def main(tier):
                 m *= fac(u) ** e
             return m
 
+        cats_of = {}
+        for c_ in proj["cats"]:
+            cats_of.setdefault(c_["qt"], []).append(c_["cat"])
         events = []
         ndec = npre = 0
         for g in gen:
@@ -93,6 +96,34 @@ def main(tier):
                     ratio_scalar = fac(u) / mag
                     if ppb(fac(u) / mag2) > ppb(ratio_scalar):
                         ratio_scalar = fac(u) / mag2
+                    # the same amount brought to base units by the library itself: added to a zero amount composed of the parts' base
+                    # units (unit matching with exponents on a database that has matched many other rows before), once with
+                    # the default categories and once with a different category of the quantity type for every repeated factor
+                    if all(db.unit_to_unit_info[p["atom"]].tobase(0.0) == 0.0 for p in g["parts"]):
+                        for variant in ("default categories", "one category per factor"):
+                            used = {}
+
+                            def sc(val, unit):
+                                qt_ = db.unit_to_unit_info[unit].quantity_type
+                                if variant == "default categories" or len(cats_of.get(qt_, [])) < 2:
+                                    return Scalar(val, unit)
+                                k_ = used.get(qt_, 0)
+                                used[qt_] = k_ + 1
+                                return Scalar(val, unit, cats_of[qt_][k_ % len(cats_of[qt_])])
+                            try:
+                                comp_, zero_ = Scalar.CreateEmptyScalar(1.0), Scalar.CreateEmptyScalar(0.0)
+                                for p in g["parts"]:
+                                    for _ in range(abs(p["exp"])):
+                                        bu = db.GetBaseUnit(db.unit_to_unit_info[p["atom"]].quantity_type)
+                                        a_ = sc(float(p["pre"]), p["atom"])
+                                        z_ = Scalar(1.0, bu, a_.GetCategory())
+                                        comp_, zero_ = (comp_ * a_, zero_ * z_) if p["exp"] > 0 else (comp_ / a_, zero_ / z_)
+                                total = zero_ + comp_
+                                r4 = fac(u) / total.value
+                                if ppb(r4) > ppb(ratio_scalar):
+                                    ratio_scalar = r4
+                            except ZeroDivisionError:
+                                pass
                     # a pure power / reciprocal of one unit: also through the library's own conversion of the derived quantity
                     # to the same power of the part's base unit (the exponent form of UnitDatabase.Convert)
                     if (len(g["parts"]) == 1 and g["parts"][0]["pre"] == 1 and not isinstance(acc, float) and acc.GetQuantity().IsDerived()
